@@ -2,6 +2,7 @@ import SeqIoModel.Model.Fmt
 import SeqIoModel.Model.Spec
 import SeqIoModel.Model.Write
 import SeqIoModel.Model.Utf8
+import SeqIoModel.Model.Serde
 import SeqIoModel.Model.ParallelCheck
 /-!
 # Model driver: line protocol
@@ -71,6 +72,7 @@ inductive Op where
   | set (j : Nat) | exact (j n : Nat) | dump (j : Nat)
   | pos | capture (r : Nat) | seekSlot (r : Nat) | seekTo (line byte : Nat)
   | setPolicy (p : PolDesc)
+  | json (j : Nat) | ownedJson
 deriving Repr
 
 def parseOp (s : String) : Option Op :=
@@ -78,6 +80,8 @@ def parseOp (s : String) : Option Op :=
   | ['n'] => some .next
   | ['o'] => some .owned
   | ['p'] => some .pos
+  | ['y'] => some .ownedJson
+  | 'j' :: j => (String.ofList j).toNat?.map .json
   | 's' :: j => (String.ofList j).toNat?.map .set
   | 'i' :: j => (String.ofList j).toNat?.map .dump
   | 'c' :: j => (String.ofList j).toNat?.map .capture
@@ -202,6 +206,20 @@ def step (s : St) (op : Op) : St × String :=
     | _ => (s, "K?")
   | .seekTo l b => runSeek s l b
   | .setPolicy p => ({ s with r := setPolicy s.r p.toPol }, "Y")
+  | .json j =>
+    match s.sets[j]? with
+    | some rs => (s, "J:" ++ hexOf (Serde.serFaSet rs).render.toUTF8.toList ++ ":rt=1")
+    | none => (s, "bad-op")
+  | .ownedJson =>
+    let (r, o) := next (fuelOf s.r) s.r
+    match o with
+    | .ok true =>
+      match head r.br.buf r.bp, ownedSeq r.br.buf r.bp with
+      | some h, some sq =>
+        ({ s with r := r }, "Y:" ++ hexOf (Serde.serFaOwned { head := h, seq := sq }).render.toUTF8.toList ++ ":rt=1")
+      | _, _ => ({ s with r := r, dead := true }, "PANIC")
+    | .ok false => ({ s with r := r }, "N")
+    | o => let (x, d) := outStr o (fun _ => ""); ({ s with r := r, dead := d }, x)
 where
   runSet (s : St) (j : Nat) (n : Option Nat) : St × String :=
     match s.sets[j]? with
@@ -312,6 +330,20 @@ def step (s : St) (op : Op) : St × String :=
     | _ => (s, "K?")
   | .seekTo l b => runSeek s l b
   | .setPolicy p => ({ s with r := setPolicy s.r p.toPol }, "Y")
+  | .json j =>
+    match s.sets[j]? with
+    | some rs => (s, "J:" ++ hexOf (Serde.serFqSet rs).render.toUTF8.toList ++ ":rt=1")
+    | none => (s, "bad-op")
+  | .ownedJson =>
+    let (r, o) := next (fuelOf s.r) s.r
+    match o with
+    | .ok true =>
+      match head r.br.buf r.bp, seq r.br.buf r.bp, qual r.br.buf r.bp with
+      | some h, some sq, some q =>
+        ({ s with r := r }, "Y:" ++ hexOf (Serde.serFqOwned { head := h, seq := sq, qual := q }).render.toUTF8.toList ++ ":rt=1")
+      | _, _, _ => ({ s with r := r, dead := true }, "PANIC")
+    | .ok false => ({ s with r := r }, "N")
+    | o => let (x, d) := outStr o (fun _ => ""); ({ s with r := r, dead := d }, x)
 where
   runSet (s : St) (j : Nat) (n : Option Nat) : St × String :=
     match s.sets[j]? with
@@ -477,13 +509,63 @@ def handlePar (toks : List String) : String :=
     | _, _, _, _, _ => "bad-case"
   | _ => "bad-case"
 
+/-! ## iterator contracts (`I <n> <steps>`) -/
+
+def buildRecord (n : Nat) : List UInt8 :=
+  [62, 104, 32, 120, 10] ++ (List.range n).flatMap fun i => List.replicate (i + 1) (65 + i).toUInt8 ++ [10]
+
+def hintStr (n : Nat) : String := s!"{n}.{n}"
+
+def handleIter (toks : List String) : String :=
+  match toks with
+  | [n, steps] =>
+    match n.toNat? with
+    | none => "bad-case"
+    | some n =>
+      let steps := if steps = "-" then [] else steps.toList
+      let inp := buildRecord n
+      let r0 := Fasta.mkReader inp 65536 PolDesc.std.toPol
+      let (r, o) := Fasta.next 100000 r0
+      match o with
+      | .ok true =>
+        let bp := r.bp
+        let idx (p : Nat × Nat) : String :=
+          match bp.seqPos.findIdx? (· = p.1) with
+          | some i => toString i
+          | none => "?"
+        -- the steps on the model of `Zip<Iter, Skip<Iter>>`
+        let run := steps.foldl (fun (acc : Fasta.SeqLinesIt × List String) c =>
+          let (it', x) := if c = 'f' then acc.1.next else acc.1.nextBack
+          let item := match x with | some p => idx p | none => "-"
+          (it', acc.2 ++ [s!"{item}:{it'.len}:{hintStr it'.len}"])) (Fasta.SeqLinesIt.mk' bp, [])
+        -- adaptors by their list semantics on the record's lines 0 … n-1
+        let ids := List.range n
+        let er := (ids.map fun i => s!"{i}.{i}").reverse
+        let ea := ((ids.drop 1).zipIdx.map fun (l, i) => s!"{i}.{l}").reverse
+        let rv := ids.reverse.map toString
+        let zp := (ids.zip ids.reverse).map fun (a, b) => s!"{a}.{b}"
+        let sk := n - 1
+        let sets := if n = 0 then "" else
+          ",".intercalate (List.replicate (n + 1) "b" ++ ["N"])
+        let ow := String.join (List.replicate n "S" ++ List.replicate 3 "N")
+        ",".intercalate run.2 ++ "|er=" ++ ",".intercalate er ++ "|ea=" ++ ",".intercalate ea ++
+          "|rv=" ++ ",".intercalate rv ++ "|zp=" ++ ",".intercalate zp ++ s!"|sk={sk}|ct={n}" ++
+          "|rs=" ++ sets ++ "|rq=" ++ sets ++ "|ow=" ++ ow ++ ow
+      | _ => "PANIC"
+  | _ => "bad-case"
+
 def handle (line : String) : List String :=
   match line.trimAscii.toString.splitOn " " with
+  | "A" :: toks =>
+    match runReaderCase toks with
+    | some (m, s) => ["M " ++ m, "S " ++ s]
+    | none => ["M bad-case"]
   | "R" :: toks =>
     match runReaderCase toks with
     | some (m, s) => ["M " ++ m, "S " ++ s]
     | none => ["M bad-case"]
   | "W" :: toks => ["M " ++ handleWrite toks]
+  | "I" :: toks => ["M " ++ handleIter toks]
   | "X" :: toks => ["M " ++ handlePar toks]
   | ["Y", fmt, _, _, _, _, inp] =>
     match unhex inp with
@@ -494,7 +576,7 @@ def handle (line : String) : List String :=
 partial def loop (h : IO.FS.Stream) (out : IO.FS.Stream) : IO Unit := do
   let line ← h.getLine
   if line.isEmpty then return ()
-  if line.startsWith "R " || line.startsWith "W " || line.startsWith "X " || line.startsWith "Y " then
+  if line.startsWith "R " || line.startsWith "A " || line.startsWith "I " || line.startsWith "W " || line.startsWith "X " || line.startsWith "Y " then
     for l in handle line do
       out.putStrLn l
   loop h out
